@@ -91,7 +91,9 @@ static std::unique_ptr<PointCloud> gen_pc(Rng &r) {
   int pos = pb.AddAttribute(GeometryAttribute::POSITION, 3, DT_FLOAT32);
   int col = r.chance(60) ? pb.AddAttribute(GeometryAttribute::COLOR, 3, DT_UINT8) : -1;
   int gen = r.chance(40) ? pb.AddAttribute(GeometryAttribute::GENERIC, 2, DT_INT16) : -1;
+  int g32 = r.chance(35) ? pb.AddAttribute(GeometryAttribute::GENERIC, 1, DT_INT32) : -1;
   for (int i = 0; i < n; i++) {
+    if (g32 >= 0) { int32_t g = (int32_t)r.range(-70000, 70000); pb.SetAttributeValueForPoint(g32, PointIndex(i), &g); }
     float p[3] = {(float)r.range(-500, 500) / 10.f, (float)r.range(-500, 500) / 10.f, (float)r.range(-100, 100) / 4.f}; pb.SetAttributeValueForPoint(pos, PointIndex(i), p);
     if (col >= 0) { uint8_t c[3] = {(uint8_t)r.below(256), (uint8_t)r.below(8), (uint8_t)(i % 256)}; pb.SetAttributeValueForPoint(col, PointIndex(i), c); }
     if (gen >= 0) { int16_t g[2] = {(int16_t)r.range(-300, 300), (int16_t)r.range(-5, 5)}; pb.SetAttributeValueForPoint(gen, PointIndex(i), g); }
@@ -126,6 +128,21 @@ static void encode_pc_variants(Rng &r, const PointCloud &pc, std::vector<Stream>
     out.push_back({std::vector<uint8_t>(eb.data(), eb.data() + eb.size()), "pc m" + S(method) + " s" + S(speed), false});
   }
 }
+// sequential meshes whose point count sits at the boundaries of the four index encodings (uint8 / uint16 / varint / uint32):
+// a few faces using the highest point ids, one constant uint8 position attribute (tiny stream, many declared points)
+static void boundary_meshes(std::vector<Stream> &out, bool thorough) {
+  std::vector<uint32_t> ns = {255, 256, 257, 65535, 65536, 65537, 70000, 2097151, 2097152};
+  if (!thorough) ns = {256, 257, 65536, 65537, 70000, 2097152};
+  for (uint32_t n : ns) {
+    Mesh m; m.set_num_points(n);
+    GeometryAttribute ga; ga.Init(GeometryAttribute::POSITION, nullptr, 3, DT_UINT8, false, 3, 0);
+    int id = m.AddAttribute(ga, true, n); std::vector<uint8_t> z(3 * (size_t)n, 0); m.attribute(id)->buffer()->Update(z.data(), z.size());
+    Mesh::Face f; f[0] = PointIndex(n - 1); f[1] = PointIndex(0); f[2] = PointIndex(n - 2); m.AddFace(f); f[0] = PointIndex(n / 2); f[1] = PointIndex(n - 1); f[2] = PointIndex(1); m.AddFace(f);
+    Encoder enc; enc.SetEncodingMethod(MESH_SEQUENTIAL_ENCODING); enc.SetSpeedOptions(5, 5);
+    EncoderBuffer eb; if (!enc.EncodeMeshToBuffer(m, &eb).ok()) continue;
+    out.push_back({std::vector<uint8_t>(eb.data(), eb.data() + eb.size()), "boundary-mesh n=" + U(n), true});
+  }
+}
 static void load_legacy(std::vector<Stream> &out) {
   const char *dir = getenv("DEC_TESTDATA"); std::string d = dir ? dir : "/repo/testdata";
   DIR *dp = opendir(d.c_str()); if (!dp) return;
@@ -142,7 +159,11 @@ static void load_legacy(std::vector<Stream> &out) {
 static std::vector<uint8_t> corrupt(Rng &r, const std::vector<uint8_t> &in, const std::vector<Stream> &pool, std::string &what) {
   std::vector<uint8_t> b = in; size_t n = b.size();
   auto pos = [&]() { return r.chance(40) ? r.below(std::min<size_t>(n, 64)) : r.below(n); };   // bias to the framing at the start
-  switch (r.below(10)) {
+  switch (r.below(11)) {
+    case 10: { // extreme varints in the last bytes (where trailing parameter blocks live: kd-tree signed minima, quantization data)
+      static const uint8_t pats[][5] = {{0xfe, 0xff, 0xff, 0xff, 0x0f}, {0xff, 0xff, 0xff, 0xff, 0x0f}, {0xff, 0xff, 0xff, 0xff, 0x07}, {0x80, 0x80, 0x80, 0x80, 0x08}, {0xfd, 0xff, 0xff, 0xff, 0x0f}};
+      size_t back = 1 + r.below(std::min<size_t>(n, 10)); size_t p = n - back; const uint8_t *pt = pats[r.below(5)]; std::vector<uint8_t> tail(b.begin() + p + 1, b.end());
+      b.resize(p); b.insert(b.end(), pt, pt + 5); if (r.chance(70)) b.insert(b.end(), tail.begin(), tail.end()); what = "tailvarint@" + U(p); break; }
     case 0: { size_t k = r.below(n); b.resize(k); what = "truncate@" + U(k); break; }
     case 1: { size_t p = pos(); static const uint8_t pat[] = {0x00, 0xff, 0x80, 0x7f, 0x01, 0xfe}; b[p] = pat[r.below(6)]; what = "byte@" + U(p); break; }
     case 2: { size_t p = pos(); b[p] ^= (uint8_t)(1u << r.below(8)); what = "bit@" + U(p); break; }
@@ -208,12 +229,21 @@ static void run_case(FILE *out, const Case &c, Shared *sh) {
 
 int main(int argc, char **argv) {
   if (argc < 4) { fprintf(stderr, "usage: h_dec quick|thorough seed out\n"); return 2; }
+  if (!strcmp(argv[1], "one")) {   // replay: h_dec one <file with the hex bytes> <out>: the bytes through every entry point, each in a forked worker
+    std::ifstream hf(argv[2]); std::string hx; hf >> hx; std::vector<uint8_t> bytes = unhex(hx);
+    FILE *out = fopen(argv[3], "w"); if (!out) return 2;
+    Shared *sh = (Shared *)mmap(nullptr, sizeof(Shared), PROT_READ | PROT_WRITE, MAP_SHARED | MAP_ANONYMOUS, -1, 0); memset((void *)sh, 0, sizeof(Shared));
+    for (int e = 0; e < 5; e++) { Case c{bytes, "replay", e}; pid_t pid = fork(); if (pid == 0) { alarm(60); run_case(out, c, sh); fflush(out); _exit(0); }
+      int st = 0; waitpid(pid, &st, 0); if (!(WIFEXITED(st) && WEXITSTATUS(st) == 0)) { fprintf(out, "! C02 decoder %s (status %d) on entry %d: replay %s\n", (WIFSIGNALED(st) && WTERMSIG(st) == SIGALRM) ? "did not return within the time limit (hang)" : "crashed / sanitizer abort", st, e, hx.c_str()); fflush(out); } }
+    fprintf(out, "# STATS replay accepted=%ld rejected=%ld\n", sh->accepted, sh->rejected); fclose(out); return 0;
+  }
   bool thorough = !strcmp(argv[1], "thorough");
   Rng r(strtoull(argv[2], 0, 10));
   std::vector<Stream> streams;
   int ng = thorough ? 60 : 14;
   for (int i = 0; i < ng; i++) { auto m = gen_mesh(r, i % 2); if (m) encode_mesh_variants(r, *m, streams, thorough ? 5 : 3); }
   for (int i = 0; i < ng; i++) { auto p = gen_pc(r); if (p) encode_pc_variants(r, *p, streams, thorough ? 4 : 2); }
+  boundary_meshes(streams, thorough);
   size_t ngen = streams.size();
   load_legacy(streams);
   std::vector<Case> cases;
@@ -223,6 +253,9 @@ int main(int argc, char **argv) {
     int nc = thorough ? 400 : (s.legacy ? 40 : 60);
     if (s.bytes.size() > 20000) nc /= 4;
     for (int k = 0; k < nc; k++) { std::string what; auto b = corrupt(r, s.bytes, streams, what); int e = (int)r.below(10); cases.push_back({b, what + " of " + s.label, e < 5 ? (s.mesh ? 0 : 1) : (e < 8 ? 2 : (e < 9 ? 3 : (s.mesh ? 4 : 1)))}); }
+    if (s.label.compare(0, 13, "boundary-mesh") == 0)   // deterministic sweep over the framing + connectivity bytes
+      for (size_t p = 0; p < std::min<size_t>(s.bytes.size(), 44); p++) { const uint8_t o = s.bytes[p]; const uint8_t pats[] = {0x00, 0x7f, 0x80, 0xff, (uint8_t)(o ^ 1), (uint8_t)(o ^ 0x40), (uint8_t)(o + 1), (uint8_t)(o | 0x0f)};
+        for (uint8_t v : pats) if (v != o) { std::vector<uint8_t> b = s.bytes; b[p] = v; cases.push_back({b, "sweep@" + U(p) + "=" + U(v) + " of " + s.label, 0}); } }
     if (thorough && s.bytes.size() < 600) for (size_t k = 0; k < s.bytes.size(); k++) { std::vector<uint8_t> b(s.bytes.begin(), s.bytes.begin() + k); cases.push_back({b, "truncate@" + U(k) + " of " + s.label, 2}); }
   }
   // distinct inputs
